@@ -142,6 +142,7 @@ type Raw struct {
 	ID       int
 	Lines    []string
 	TickSame bool // back-tick on the same line as `raw`
+	CRLF     bool // content lines are separated by CR LF
 }
 
 func (*Const) itemNode()        {}
